@@ -260,6 +260,13 @@ Apply2(e) ==
     ELSE IF e.ev = "inst" THEN ApplyInst2(e)
     ELSE IF e.ev = "close" THEN ApplyClose2(e)
     ELSE IF e.ev = "ret" /\ e.th \in DOMAIN cs.curs THEN ApplyRet2(e)
+    ELSE IF e.ev = "step" /\ e.at \in {"R_check", "K_check", "G_check"} /\ e.th \in DOMAIN cs.curs
+            /\ cs.curs[e.th].op \in {"resolve", "group", "create"} THEN
+        \* under the scheduler a call is announced when its goroutine starts but only begins when it is released
+        \* at its first gate (which precedes the disposed check): a Close that has returned by now must be seen
+        LET c == cs.curs[e.th]
+            now == IF c.sc = "prov" THEN cs.pclosed \/ cs.plost ELSE IsClosed(ScopeOfTarget(c.sc))
+        IN [cs EXCEPT !.curs = [@ EXCEPT ![e.th] = [@ EXCEPT !.mustRefuse = @ \/ now]]]
     ELSE IF e.ev = "waits" THEN [cs EXCEPT !.waited = @ \cup {[th |-> e.th, scope |-> e.scope, line |-> l]}]
     ELSE IF e.ev = "noop" /\ e.th \in DOMAIN cs.curs THEN
         \* the Close in progress on that target lost the compare-and-swap: it is the no-op, the closing is somebody else's
